@@ -5,7 +5,7 @@ exhaustive  every index column over the alphabet {a, b, ab} up to length 5 (364 
             the table, string and tuple spelling) through table[col, row], rows.get_index and table // row;
             then the same after ONE single-cell assignment to the index column (every position x every
             new name, by position and by name) - the smallest update/lookup interleavings;
-scripts     Hypothesis-generated scripts over one table (0..8 rows, index 'name' or another column):
+scripts     Hypothesis-generated scripts over one table (0..8 rows, one in five 9..64 rows, index 'name' or another column):
             whole index-column assignment (item and attribute syntax), single-cell assignment to the index
             column by position / by name, numeric cell assignment by name, new column, column deletion,
             interleaved with lookups (read, write-by-name, get_index, //) and label checks.
@@ -34,7 +34,7 @@ ALPHA = ["a", "b", "ab"]
 ABSENT = "zz"
 COUNTS = [None, 0, 1, 2, 4, -1, -2, -5]
 REQUIRED_CLASSES = ["after:cell-assign-by-position", "after:cell-assign-by-name", "after:whole-column:item",
-                    "after:whole-column:attr", "form:negative-count", "form:offset", "form:absent-name", "labels"]
+                    "after:whole-column:attr", "form:negative-count", "form:offset", "form:absent-name", "labels", "rows>=17"]
 
 
 def make_table(names, index="name", extra=None):
@@ -255,7 +255,8 @@ NAME_POOL = ["a", "b", "ab", "c", "ip1", "ip2", "mq.1", "tab$end", "b$b", "A1"]
 def scripts(draw):
     index = draw(st.sampled_from(["name", "name", "key"]))
     pool = draw(st.lists(st.sampled_from(NAME_POOL), min_size=1, max_size=4, unique=True))
-    n = draw(st.integers(0, 8))
+    # mostly small tables; one in five is larger (up to 64 rows: cache construction must not depend on the size)
+    n = draw(st.integers(0, 8)) if draw(st.integers(0, 4)) else draw(st.integers(9, 64))
     names = [draw(st.sampled_from(pool)) for _ in range(n)]
     cols = {"v": [float(i) * 1.5 for i in range(n)], "k": [i * 10 for i in range(n)]}
     model = {"names": list(names), "cols": {k: list(v) for k, v in cols.items()}}
@@ -341,7 +342,7 @@ def exec_script(ctx, case):
         data[c] = np.array(v, dtype=float)
     t = Table(data, index=index)
     mutated = []          # kinds of index mutations so far
-    classes = {"script", "index=" + index}
+    classes = {"script", "index=" + index, "rows>=17" if n >= 17 else "rows<17"}
     nontrivial = False
     rendered = {"index": index, "names": names, "steps": [render_step(s) for s in case["steps"]]}
 
